@@ -10,6 +10,7 @@ import (
 	"crypto/x509/pkix"
 	"encoding/pem"
 	"fmt"
+	"github.com/gopcua/opcua/ua"
 	"io"
 	"log"
 	"math/big"
@@ -264,3 +265,14 @@ func min(a, b int) int {
 
 // newSelfCommand re-executes this binary with the same arguments.
 func newSelfCommand() *exec.Cmd { return exec.Command(os.Args[0], os.Args[1:]...) }
+
+// advertised returns the endpoint descriptions the server advertises for the given URL.
+func advertised(s *server.Server, url string) []*ua.EndpointDescription {
+	var out []*ua.EndpointDescription
+	for _, e := range s.Endpoints() {
+		if e.EndpointURL == url {
+			out = append(out, e)
+		}
+	}
+	return out
+}
